@@ -14,6 +14,7 @@ def run(ctx, rep):
         crate = ctx.mir(cfg)['logos']
         rt.rule_mapping_table(rep, crate, cfg)
     rep.analysed['configs'] = cfgs
+    rt.rt_controls(rep, ctx, ['M-C13a'])
     rep.trusted += ['rustc nightly MIR construction', 'engines/mirfacts']
     rep.assumptions += ['user callbacks are pure functions of the matched text (the property\'s quantifier)']
     from props import gen
